@@ -4,6 +4,8 @@ import (
 	"context"
 	"encoding/json"
 	"fmt"
+	"os"
+	"runtime"
 	"sort"
 	"strings"
 	"time"
@@ -42,9 +44,21 @@ func hookBeforeLock(mu interface{}, write bool) {
 	}
 }
 
-func init() {
+//go:norace
+func hookBeforeTry(try func() bool) {
+	if s := activeSched; s != nil {
+		s.beforeTry(try)
+	}
+}
+
+func installHooks() {
 	simhook.YieldFunc = hookYield
 	simhook.BeforeLockFunc = hookBeforeLock
+	simhook.BeforeTryFunc = hookBeforeTry
+}
+
+func init() {
+	installHooks()
 	simhook.LoggerFunc = func(l *logrus.Logger) {
 		l.SetLevel(logrus.PanicLevel)
 		l.SetReportCaller(false)
@@ -219,6 +233,7 @@ func Execute(plan *kernel.Plan, known map[string]bool, verbose bool) *kernel.Res
 	r := &run{prop: plan.Property, cfg: cfg, known: known, verbose: verbose,
 		res: &kernel.Result{Faults: map[string]int{}, Probes: map[string]int{}}}
 	uid := kernel.NewRng(plan.Seed).Derive("uids")
+	installHooks()
 	simhook.UIDFunc = func() (string, bool) { return uid.UID(), true }
 	r.srv = &logServer{cseq: map[string]uint64{}}
 	simhook.ServiceClientFunc = func(string) interface{} { return r.srv }
@@ -289,6 +304,9 @@ func (r *run) body(evs []Ev) {
 		})
 	}
 	watch := time.AfterFunc(20*time.Second, func() {
+		buf := make([]byte, 1<<18)
+		n := runtime.Stack(buf, true)
+		fmt.Fprintf(os.Stderr, "engine C watchdog: goroutines:\n%s\n", buf[:n])
 		panic("engine C: wall-clock watchdog (a task blocked outside the scheduler)")
 	})
 	r.s.run()
